@@ -329,8 +329,8 @@ def collapse_node(rng, inf):
     calign = c + (rng.choice(['~1', '~e.2']) if rng.random() < .3 else '')
     shape = rng.choice(['inv', 'inv', 'inv', 'top', 'target', 'inv-ref', 'inv-extra', 'inv-one', 'chain'])
     far = tgt_node('b') if rng.random() < .6 else const()
-    if rng.random() < .15:
-        far = 'a'
+    if rng.random() < .2:
+        far = 'a' + rng.choice(['', '', '~2', '~e.4'])      # a re-entrancy, possibly carrying an alignment
     w_rel = [('/', calign)]
     second = (tr + (rng.choice(['~3', '']) if rng.random() < .3 else ''), far)
     if shape == 'top':
@@ -735,6 +735,44 @@ def run(chk):
     outs = common.pmap(batch_worker, batches(exe, jobs), chunk=1)
     merge(chk, outs)
     cli_stream(chk)
+    constructor_arguments_stream(chk)
+
+
+def constructor_arguments_stream(chk):
+    """The round trip under models built with the rarely used constructor arguments (top_variable, top_role,
+    concept_role given explicitly, with other values than the defaults): the reified node is a NODE (its concept is an
+    instance triple of the graph, whatever the model calls its concept role), and dereifying gives the text back."""
+    import penman
+    from penman import transform
+    from penman.model import Model
+    from penman.models.amr import model as amr
+    rows = [(r, c, s, t) for r, rs in amr.reifications.items() for c, s, t in rs]
+    variants = [dict(concept_role=':isa'), dict(concept_role='/'), dict(top_role=':ROOT', top_variable='root'),
+                dict(concept_role=':instance', top_role=':TOP')]
+    texts = ['(a / alpha :mod (b / beta) :polarity -)', '(a / alpha :location (c / city :name "X") :mod 7)',
+             '(a / alpha~1 :mod~2 (b / beta~3) :ARG0 b)', '(w / want-01 :ARG0 (b / boy :quant 3) :time (d / day))']
+    for kw in variants:
+        m = Model(roles=dict(amr.roles), normalizations=dict(amr.normalizations), reifications=rows, **kw)
+        for text in texts:
+            case = {'stream': 'constructor-arguments', 'model_arguments': kw, 'text': text}
+            chk.count(('constructor-arguments', repr(kw), text))
+            try:
+                g = penman.decode(text, model=m)
+                r = common.timed(transform.reify_edges, g, m, seconds=5)
+                back = common.timed(transform.dereify_edges, r, m, seconds=5)
+                got = penman.encode(back, model=m, indent=None)
+                want = penman.encode(g, model=m, indent=None)
+            except Exception as e:       # noqa
+                chk.fail('roundtrip', f'{type(e).__name__} under Model({kw})', case)
+                continue
+            new_nodes = {t[0] for t in r.triples} - {t[0] for t in g.triples}
+            if any(not any(t[0] == v and t[1] == ':instance' for t in r.triples) for v in new_nodes):
+                chk.fail('roundtrip', f'under Model({kw}) a reified node has no instance triple: {r.triples!r}', case)
+            elif len(r.triples) == len(g.triples):
+                chk.fail('roundtrip', f'under Model({kw}) nothing was reified', case)
+            elif got != want:
+                chk.fail('roundtrip', f'under Model({kw}) dereify(reify(g)) is written {got!r}, the input {want!r}', case)
+    chk.stat('constructor-argument-cases', len(variants) * len(texts))
 
 
 def cli_stream(chk):
